@@ -20,7 +20,7 @@ Q(cpu, arch, mem, storage, sattrs) == [cpu |-> cpu, cpuArch |-> arch, mem |-> me
 
 QLarge == Q(CpuM(100), "", B(128, "Mi"), B(1, "Gi"), <<>>)
 QSmall == Q(CpuDec(500), "", Bh(1, "Gi"), B(512, "M"), <<>>)
-QOdd   == Q(CpuDec(1250), "amd64", B(2, "G"), B(100, "Gi"), << <<"class", "ssd">> >>)
+QOdd   == Q(CpuDec(1250), "amd64", B(2, "G"), B(100, "Gi"), << <<"persistent", "true">>, <<"class", "ssd">> >>)
 
 \* quantity families (see Sdl!FamAt)
 List(items) == [k |-> "list", items |-> items]
@@ -37,9 +37,20 @@ MemForms == List(<< Mem(B(1, "Mi")), Mem(B(128, "Mi")), Mem(B(1, "Gi")), Mem(B(1
                     Mem(Bh(2, "M")), Mem(B(16384, "Mi")), Mem(B(17, "Gi")), Mem(B(1000, "Ki")) >>)
 StorageForms == List(<< Sto(B(5, "Mi")), Sto(B(1, "Ti")), Sto(B(1, "T")), Sto(B(100, "Gi")), Sto(Bh(512, "Mi")), Sto(B(1000, "Mi")),
                         Sto(B(10, "G")), Sto(B(5242880, "")), Sto(Bh(0, "Ti")), Sto(B(4, "Mi")), Sto(B(1025, "Gi")) >>)
-AttrForms == List(<< Q(CpuM(250), "amd64", B(128, "Mi"), B(1, "Gi"), << <<"class", "ssd">> >>),
-                     Q(CpuM(250), "", B(128, "Mi"), B(1, "Gi"), << <<"class", "ssd">> >>),
-                     Q(CpuM(250), "amd64", B(128, "Mi"), B(1, "Gi"), <<>>) >>)
+\* 0, 1, 2 and 3 storage attributes, declared in sorted and unsorted key orders
+SA0 == <<>>
+SA1 == << <<"class", "ssd">> >>
+SA2s == << <<"class", "ssd">>, <<"persistent", "true">> >>
+SA2u == << <<"persistent", "true">>, <<"class", "ssd">> >>
+SA3u == << <<"tier", "fast">>, <<"class", "nvme">>, <<"persistent", "false">> >>
+SA3v == << <<"persistent", "true">>, <<"tier", "slow">>, <<"class", "hdd">> >>
+AttrForms == List(<< Q(CpuM(250), "amd64", B(128, "Mi"), B(1, "Gi"), SA1),
+                     Q(CpuM(250), "", B(128, "Mi"), B(1, "Gi"), SA1),
+                     Q(CpuM(250), "amd64", B(128, "Mi"), B(1, "Gi"), SA0),
+                     Q(CpuM(250), "", B(128, "Mi"), B(1, "Gi"), SA2s),
+                     Q(CpuM(250), "", B(128, "Mi"), B(1, "Gi"), SA2u),
+                     Q(CpuM(250), "amd64", B(128, "Mi"), B(1, "Gi"), SA3u),
+                     Q(CpuM(250), "", B(128, "Mi"), B(1, "Gi"), SA3v) >>)
 CpuEdge == List(<< Cpu(CpuM(10)), Cpu(CpuM(100)), Cpu(CpuM(1500)), Cpu(CpuM(10000)), Cpu(CpuM(9)), Cpu(CpuM(10001)),
                    Cpu(CpuDec3(100)), Cpu(CpuDec3(1001)), Cpu(CpuDec3(2500)) >>)
 
